@@ -116,3 +116,17 @@ package utils
 //@   loop 1 invariant [ctx] fresh(interfaceSlice) && interfaceSlice != nil && total == iterLen(objects) && 0 <= i
 //@   loop 1 invariant [names_so_far] forall q string :: q in interfaceSlice <==> exists k int :: 0 <= k && k < i && k < total && identOf(iterAt(objects, k)) == q
 //@   loop 1 invariant [objects_so_far] forall q string :: q in interfaceSlice ==> exists k int :: 0 <= k && k < i && k < total && interfaceSlice[q] == iterAt(objects, k) && identOf(iterAt(objects, k)) == q
+
+//@ func ToIdentifiable
+//@   property C20 C03
+//@   ensures [the_listed_objects_in_order] result != nil && fresh(result) && fresh(*result) && len(*result) == iterLen(objects)
+//@             && forall k int :: 0 <= k && k < len(*result) ==> (*result)[k] == iterAt(objects, k)
+//@   loop 1 invariant [so_far] fresh(interfaceSlice) && len(interfaceSlice) == total && total == iterLen(objects) && 0 <= i && forall k int :: 0 <= k && k < i && k < total ==> interfaceSlice[k] == iterAt(objects, k)
+//@ func ContainsByIdentity
+//@   property C20 C03
+//@   ensures [some_object_has_that_name] result <==> exists k int :: 0 <= k && k < len(*slice) && identOf((*slice)[k]) == *value
+//@   loop 1 invariant [none_so_far] forall k int :: 0 <= k && k < iter ==> identOf((*slice)[k]) != *value
+//@ func ContainsAll
+//@   property C20 C03
+//@   ensures [every_name_belongs_to_an_object] result <==> forall j int :: 0 <= j && j < len(*values) ==> exists k int :: 0 <= k && k < len(*slice) && identOf((*slice)[k]) == (*values)[j]
+//@   loop 1 invariant [all_so_far] forall j int :: 0 <= j && j < iter ==> exists k int :: 0 <= k && k < len(*slice) && identOf((*slice)[k]) == (*values)[j]
